@@ -145,13 +145,23 @@ def F_part(name):
         return lambda i, m: i[:2]
     if name == "one":
         return lambda i, m: "all"
+    if name == "none_some":
+        return lambda i, m: None if len(i) % 2 else "even"
     raise ValueError(name)
+
+
+def F_one_to_many(i, m):
+    """every ID goes to one or two pathways (collapse(one_to_many=True))"""
+    yield (["path", "A"], "A")
+    if len(i) % 2:
+        yield (["path", "B"], "B")
 
 
 INPLACE_OPS = ["filter", "transform", "norm", "pa", "rankdata", "remove_empty", "update_ids"]
 MD_OPS = ["add_metadata", "del_metadata"]
 NEW_OPS = ["copy", "transpose", "sort", "sort_order", "head", "subsample", "partition", "collapse", "merge",
-           "concat", "align_to"]
+           "concat", "align_to", "generate_subsamples", "ctor_from_table"]
+READS = ["data_samp", "data_obs", "iter_samp", "iter_obs", "nnz", "cell", "sum", "str", "md"]
 
 
 class Raised(Exception):
@@ -172,6 +182,8 @@ class World:
         self.stats = {}
         self.md_value_shared = 0
         self.out_of_domain = False
+        self.read_failures = []
+        self.incoherent = []
 
     def count(self, k):
         self.stats[k] = self.stats.get(k, 0) + 1
@@ -326,6 +338,76 @@ class World:
                           0, False, [t], None, None, old)
         return idx[0]
 
+    # ---- read accessors: answers are judged against the CURRENT content; the conversions they cache are modelled
+    def read(self, i, acc, rng):
+        if self.out_of_domain:
+            return
+        t = self.live[i]
+        if t.shape[0] == 0 or t.shape[1] == 0:
+            return
+        before, old = self.pre()
+        cur = before[i]
+        F = core.frac
+        bad = None
+        try:
+            if acc in ("data_samp", "data_obs"):
+                ax = "sample" if acc == "data_samp" else "observation"
+                ids = cur[KEY[ax]]
+                for pos in rng.sample(range(len(ids)), min(2, len(ids))):
+                    got = [F(x) for x in t.data(ids[pos], axis=ax, dense=True)]
+                    want = cur["rows"][pos] if ax == "observation" else [r[pos] for r in cur["rows"]]
+                    if got != want:
+                        bad = "data(%r, %s) = %s, content says %s" % (ids[pos], ax, got, want)
+            elif acc in ("iter_samp", "iter_obs"):
+                ax = "sample" if acc == "iter_samp" else "observation"
+                got = [([F(x) for x in v], str(i_)) for v, i_, _ in t.iter(axis=ax)]
+                rows = cur["rows"] if ax == "observation" else [[r[j] for r in cur["rows"]] for j in range(len(cur["samp"]))]
+                want = [(rows[k], cur[KEY[ax]][k]) for k in range(len(rows))]
+                if got != want:
+                    bad = "iter(%s) disagrees with the content" % ax
+            elif acc == "nnz":
+                want = sum(1 for r in cur["rows"] for x in r if x != "0")
+                if t.nnz != want:
+                    bad = "nnz = %d, content has %d non-zero cells" % (t.nnz, want)
+            elif acc == "cell":
+                a, b = rng.randrange(len(cur["obs"])), rng.randrange(len(cur["samp"]))
+                got = F(t.get_value_by_ids(cur["obs"][a], cur["samp"][b]))
+                if got != cur["rows"][a][b]:
+                    bad = "get_value_by_ids(%r, %r) = %s, content says %s" % (cur["obs"][a], cur["samp"][b], got,
+                                                                             cur["rows"][a][b])
+            elif acc == "sum":
+                ax = rng.choice(["sample", "observation", "whole"])
+                got = np.atleast_1d(np.asarray(t.sum(ax), dtype=float))
+                dense = np.array([[float(core.unfrac(x)) for x in r] for r in cur["rows"]], dtype=float)
+                want = dense.sum(axis=0) if ax == "sample" else dense.sum(axis=1) if ax == "observation" else \
+                    np.atleast_1d(dense.sum())
+                if got.shape != want.shape or not np.allclose(got, want, rtol=1e-12, atol=0):
+                    bad = "sum(%s) = %s, content says %s" % (ax, got.tolist(), want.tolist())
+            elif acc == "str":
+                lines = str(t).split("\n")
+                body = [l for l in lines if not l.startswith("# ")][1:]
+                got = [[float(x) for x in l.split("\t")[1:]] for l in body]
+                want = [[float(core.unfrac(x)) for x in r] for r in cur["rows"]]
+                if got != want:
+                    bad = "str(table) rows disagree with the content"
+            elif acc == "md":
+                ax = rng.choice(AXES)
+                ids = cur[KEY[ax]]
+                pos = rng.randrange(len(ids))
+                m = t.metadata(ids[pos], axis=ax)
+                want = None if cur[KEY[ax][0] + "md"] is None else cur[KEY[ax][0] + "md"][pos]
+                got = None if m is None else core.canon_md_entry(m)
+                if got != want:
+                    bad = "metadata(%r, %s) = %s, content says %s" % (ids[pos], ax, got, want)
+            else:
+                raise ValueError(acc)
+        except Exception as e:  # a read accessor that raises on a non-empty, valid table
+            bad = "%s raised %s: %s" % (acc, type(e).__name__, e)
+        self.recipe.append(["read", i, acc])
+        self.record("read", {"table": i, "accessor": acc}, i, False, [], None, None, old)
+        if bad:
+            self.read_failures.append((len(self.calls) - 1, acc, bad))
+
     # ---- API calls
     def call(self, name, recv, p):
         """run one API call on live table `recv`; p = python-level parameters (JSON-able)"""
@@ -365,6 +447,13 @@ class World:
             results = [t]        # convention: these return None; treated as returning the receiver
         idx = self.record(name, None, recv, inplace, results, raised, ref, old)
         rec = self.calls[-1]
+        if inplace and raised is not None and rec["after"][recv] != cur:
+            # the call raised after it had changed its receiver (errcheck runs after the change); the receiver
+            # must at least be coherent; the model cannot follow it, so the history ends here
+            self.count("inplace-call-raised-after-changing-its-receiver:%s:%s" % (name, raised))
+            if str(rec["after"][recv]["type"]).startswith("!!"):
+                self.incoherent.append((len(self.calls) - 1, name, raised))
+            self.out_of_domain = "in-place call raised after changing its receiver"
         rec["args"] = op_args(name, p, cur, [self.prev_after[i] for i in idx], self)
         return idx, raised
 
@@ -419,15 +508,31 @@ def run_op(W, name, t, p, twin):
         if name == "subsample":
             return [t.subsample(p["n"], axis=ax, by_id=p.get("by_id", False),
                                 with_replacement=p.get("with_replacement", False), seed=p.get("seed", 0))]
+        if name == "generate_subsamples":
+            from biom.util import generate_subsamples
+            gen = generate_subsamples(t, p["n"], ax, p.get("by_id", False))
+            return [next(gen) for _ in range(p.get("draws", 2))]
+        if name == "ctor_from_table":
+            from biom import Table
+            return [Table(t.matrix_data, t.ids(axis="observation"), t.ids(), t.metadata(axis="observation"),
+                          t.metadata(), t.table_id, type=t.type)]
         if name == "partition":
-            return [tab for _, tab in t.partition(F_part(p["fn"]), axis=ax, remove_empty=p.get("remove_empty", False))]
+            return [tab for _, tab in t.partition(F_part(p["fn"]), axis=ax, remove_empty=p.get("remove_empty", False),
+                                                  ignore_none=p.get("ignore_none", False))]
         if name == "collapse":
+            if p.get("one_to_many"):
+                return [t.collapse(F_one_to_many, axis=ax, norm=False, one_to_many=True,
+                                   one_to_many_mode=p.get("mode", "add"), strict=p.get("strict", False),
+                                   include_collapsed_metadata=p.get("icm", True))]
             return [t.collapse(F_part(p["fn"]), axis=ax, norm=p.get("norm", False),
                                min_group_size=p.get("min_group_size", 1),
                                include_collapsed_metadata=p.get("icm", True))]
         if name == "merge":
-            return [t.merge(W.live[p["other"]], sample=p.get("sample", "union"),
-                            observation=p.get("observation", "union"))]
+            oth = [W.live[i] for i in p["others"]] if "others" in p else W.live[p["other"]]
+            kw = {}
+            if p.get("ignore_md"):
+                kw = {"sample_metadata_f": None, "observation_metadata_f": None}
+            return [t.merge(oth, sample=p.get("sample", "union"), observation=p.get("observation", "union"), **kw)]
         if name == "concat":
             return [t.concat([W.live[i] for i in p["others"]], axis=ax)]
         if name == "align_to":
@@ -464,12 +569,14 @@ def op_args(name, p, cur, res, W):
     if name == "sort_order":
         o = p["order"]
         return {"axis": ax, "order": {"kind": "list"} if o["kind"] == "list" else o}
-    if name == "subsample":
+    if name in ("subsample", "generate_subsamples"):
         return {"axis": ax, "by_id": bool(p.get("by_id", False))}
+    if name == "ctor_from_table":
+        return {"src": p["src"]}
     if name == "partition":
         return {"axis": ax, "remove_empty": bool(p.get("remove_empty", False))}
     if name == "merge":
-        return {"others": [p["other"]],
+        return {"others": list(p["others"]) if "others" in p else [p["other"]], "ignore_md": bool(p.get("ignore_md")),
                 "union_union": p.get("sample", "union") == "union" and p.get("observation", "union") == "union"}
     if name == "concat":
         return {"others": list(p["others"])}
@@ -569,7 +676,9 @@ def gen_params(rng, W, name, recv):
             elif c < 0.18:
                 sel = []
             elif c < 0.24:
-                sel = ids[:1] + ["no-such-id"]
+                # an unknown ID that looks like a member (extension, prefix, case variant, blank): must be refused
+                unk = core.tricky_unknown_ids(ids) or ["no-such-id"]
+                sel = ids[:1] + [rng.choice(unk)]
             else:
                 sel = [i for i in ids if rng.random() < 0.6]
             return {"axis": ax, "mode": "ids", "ids": sel, "invert": rng.random() < 0.3, "inplace": ip}
@@ -592,8 +701,18 @@ def gen_params(rng, W, name, recv):
         c = rng.random()
         if not ids:
             return None
-        if c < 0.4:
+        if c < 0.2:
             return {"axis": ax, "map": {i: i + "x" for i in ids}, "strict": True, "inplace": ip}
+        if c < 0.3:
+            # new IDs much longer than every existing one (fixed-width ID arrays must not truncate them)
+            w = max(len(i) for i in ids)
+            return {"axis": ax, "map": {i: i + "_" + "L" * (w + 3) for i in ids[:2]}, "strict": False, "inplace": ip}
+        if c < 0.4:
+            # new IDs of exactly the old width (they would fit into the existing, possibly shared, array)
+            def same_width(i):
+                return i[:-1] + ("#" if i[-1] != "#" else "%")
+            return {"axis": ax, "map": {ids[0]: same_width(ids[0])}, "strict": rng.random() < 0.3 and len(ids) == 1,
+                    "inplace": ip}
         if c < 0.6:
             return {"axis": ax, "map": {ids[0]: "renamed"}, "strict": False, "inplace": ip}
         if c < 0.7 and len(ids) >= 2:
@@ -629,17 +748,34 @@ def gen_params(rng, W, name, recv):
         by_id = rng.random() < 0.3
         return {"axis": ax, "n": rng.choice([0, 1, 2, 3, 5]), "by_id": by_id,
                 "with_replacement": (not by_id) and rng.random() < 0.3, "seed": rng.randint(0, 5)}
+    if name == "generate_subsamples":
+        if vc != "int":
+            return None
+        # depths below AND above some vector totals (a vector below the depth is dropped from each draw only)
+        return {"axis": ax, "n": rng.choice([1, 2, 4, 8, 30]), "by_id": rng.random() < 0.3, "draws": rng.choice([1, 2])}
+    if name == "ctor_from_table":
+        return {"src": recv}
     if name == "partition":
-        return {"axis": ax, "fn": rng.choice(["grp", "len", "first", "one"]), "remove_empty": rng.random() < 0.4}
+        fn = rng.choice(["grp", "len", "first", "one", "none_some"])
+        return {"axis": ax, "fn": fn, "remove_empty": rng.random() < 0.4,
+                "ignore_none": fn == "none_some" or rng.random() < 0.2}
     if name == "collapse":
         if vc == "other":
             return None
+        if rng.random() < 0.25:
+            return {"axis": ax, "one_to_many": True, "mode": rng.choice(["add", "divide"]) if vc == "int" else "add",
+                    "strict": rng.random() < 0.5, "icm": rng.random() < 0.7}
         return {"axis": ax, "fn": rng.choice(["grp", "len", "one"]), "norm": rng.random() < 0.5,
                 "min_group_size": rng.choice([1, 1, 2]), "icm": rng.random() < 0.7}
     if name == "merge":
         cands = [i for i in range(len(W.live)) if i != recv] or [recv]
+        c = rng.random()
+        if c < 0.25:
+            # a list of operands (pairwise chain or one aggregation); unions only
+            k = min(len(cands), rng.choice([1, 2, 2, 3]))
+            return {"others": rng.sample(cands, k), "ignore_md": rng.random() < 0.4}
         return {"other": rng.choice(cands), "sample": rng.choice(["union", "intersection"]),
-                "observation": rng.choice(["union", "intersection"])}
+                "observation": rng.choice(["union", "intersection"]), "ignore_md": rng.random() < 0.2}
     if name == "concat":
         cands = [i for i in range(len(W.live)) if i != recv]
         good = [i for i in cands if not (set(map(str, W.live[i].ids(axis=ax))) & set(ids))]
@@ -717,7 +853,7 @@ def build_pool(W, rng, holes=False, n_tables=None):
     return spec
 
 
-PREPS = ["none", "to_csc", "to_csr", "unsorted", "csc_unsorted", "filtered_csc"]
+PREPS = ["none", "to_csc", "to_csr", "unsorted", "csc_unsorted", "filtered_csc", "read_samp", "read_obs"]
 
 
 def prep_layout(W, recv, how, rng):
@@ -740,6 +876,10 @@ def prep_layout(W, recv, how, rng):
         if how == "csc_unsorted" and not W.out_of_domain:
             W.call("transform", r, {"axis": "sample", "fn": "ident", "inplace": True})
         return r
+    if how in ("read_samp", "read_obs"):
+        # a read accessor leaves the matrix column- / row-major
+        W.read(recv, rng.choice(["data_samp", "iter_samp"] if how == "read_samp" else ["data_obs", "iter_obs", "str"]), rng)
+        return recv
     if how == "filtered_csc":
         ids = [str(x) for x in t.ids()]
         W.call("filter", recv, {"axis": "sample", "mode": "ids", "ids": ids, "inplace": True})
@@ -748,6 +888,75 @@ def prep_layout(W, recv, how, rng):
 
 
 WEIGHTED = (INPLACE_OPS * 3) + NEW_OPS * 2
+
+
+REFUSALS = ["filter-unknown-id", "filter-empties", "update_ids-collision", "update_ids-missing-key",
+            "remove_empty-empties", "subsample-empties", "align_to-disjoint", "concat-overlap", "merge-no-overlap"]
+
+
+def refused_history(rng, which):
+    """operations that are refused: inputs unchanged, every table still coherent (run under profiles too)"""
+    W = World()
+    spec = {"obs": ["o1", "o2"], "samp": ["s1", "s2", "S2"], "rows": [[1.0, 0.0, 2.0], [0.0, 3.0, 0.0]],
+            "omd": None, "smd": [{"grp": "a"}, {"grp": "b"}, {"grp": "a"}], "type": None}
+    W.construct(spec, rng.choice(["csr", "csc", "dense"]), None, None)
+    W.construct(dict(spec, obs=["p1", "p2"], samp=["u1", "u2", "u3"]), "csr", None, None)
+    if rng.random() < 0.5:
+        W.read(0, rng.choice(["data_samp", "data_obs"]), rng)
+    for ip in (False, True):
+        if which == "filter-unknown-id":
+            for unk in core.tricky_unknown_ids(spec["samp"])[:6]:
+                api_call(W, "filter", 0, {"axis": "sample", "mode": "ids", "ids": ["s1", unk], "inplace": ip}, rng)
+        elif which == "filter-empties":
+            api_call(W, "filter", 0, {"axis": rng.choice(AXES), "mode": "ids", "ids": [], "inplace": ip}, rng)
+        elif which == "update_ids-collision":
+            api_call(W, "update_ids", 0, {"axis": "sample", "map": {"s2": "S2"}, "strict": False, "inplace": ip}, rng)
+        elif which == "update_ids-missing-key":
+            api_call(W, "update_ids", 0, {"axis": "sample", "map": {"s2": "x"}, "strict": True, "inplace": ip}, rng)
+        elif which == "remove_empty-empties":
+            api_call(W, "transform", 0, {"axis": "sample", "fn": "zero", "inplace": False}, rng, do_poke=False)
+            api_call(W, "remove_empty", len(W.live) - 1, {"axis": "whole", "inplace": ip}, rng)
+        elif which == "subsample-empties":
+            api_call(W, "subsample", 0, {"axis": "sample", "n": 50, "seed": 1}, rng)
+        elif which == "align_to-disjoint":
+            api_call(W, "align_to", 0, {"other": 1, "align": rng.choice(["detect", "both", "sample"])}, rng)
+        elif which == "concat-overlap":
+            api_call(W, "concat", 0, {"axis": "sample", "others": [0]}, rng)
+        elif which == "merge-no-overlap":
+            api_call(W, "merge", 0, {"other": 1, "sample": "intersection", "observation": "intersection"}, rng)
+        for i in range(len(W.live)):
+            W.read(i, rng.choice(READS), rng)
+    return W
+
+
+def wide_history(rng, axis):
+    """>= 64 IDs on one axis (size-dependent fast paths), arguments not in axis order"""
+    W = World()
+    spec = core.wide_spec(rng, axis=axis, md=rng.random() < 0.5)
+    ids = list(spec[KEY[axis]])
+    src = W.new_ext_ids(ids) if rng.random() < 0.5 else None
+    W.construct(spec, rng.choice(["csr", "csc", "dense"]), src if axis == "observation" else None,
+                src if axis == "sample" else None)
+    some = rng.sample(ids, rng.choice([3, 10, 40]))          # a small ID list, not in axis order
+    perm = list(ids)
+    rng.shuffle(perm)
+    ops = [("filter", {"axis": axis, "mode": "ids", "ids": some, "invert": rng.random() < 0.3, "inplace": False}),
+           ("sort_order", {"axis": axis, "order": {"kind": "list", "ids": perm}}),
+           ("update_ids", {"axis": axis, "map": {i: i + "_renamed_much_longer" for i in some}, "strict": False,
+                           "inplace": False}),
+           ("transform", {"axis": axis, "fn": "thr", "inplace": False}),
+           ("subsample", {"axis": axis, "n": 3, "seed": 1}),
+           ("partition", {"axis": axis, "fn": "len"}),
+           ("collapse", {"axis": axis, "fn": "len", "norm": False}),
+           ("generate_subsamples", {"axis": axis, "n": 2, "draws": 1}),
+           ("filter", {"axis": axis, "mode": "ids", "ids": some, "inplace": True}),
+           ("norm", {"axis": other(axis), "inplace": True})]
+    for name, p in rng.sample(ops[:8], 2) + [ops[8]] + ([ops[9]] if rng.random() < 0.5 else []):
+        if len(W.live) > 5:
+            break
+        W.read(0, rng.choice(READS), rng)
+        do_named(W, name, 0, p, rng)
+    return W
 
 
 def random_history(rng, quick, holes=False):
@@ -765,7 +974,22 @@ def random_history(rng, quick, holes=False):
         p = gen_params(rng, W, name, recv)
         if p is None:
             continue
-        do_named(W, name, recv, p, rng)
+        asked = []
+        if rng.random() < 0.4:
+            # leave the receiver / an operand in whatever layout a few read accessors cache (random order)
+            for _ in range(rng.randint(1, 2)):
+                who = [recv] + [i for i in (p.get("others") or [p.get("other")]) if isinstance(i, int)]
+                asked.append((rng.choice(who), rng.choice(READS)))
+                W.read(asked[-1][0], asked[-1][1], rng)
+        res = do_named(W, name, recv, p, rng)
+        if (asked or rng.random() < 0.3) and not W.out_of_domain:
+            # the same questions again right after the call (answers are judged against the current content,
+            # whatever was remembered from the first time), then one more of each table involved
+            for i, acc in asked[::-1]:
+                W.read(i, acc, rng)
+            for i in set([recv] + (res[0] if res else [])):
+                if i < len(W.live):
+                    W.read(i, rng.choice(READS), rng)
         done += 1
     return W
 
@@ -792,6 +1016,11 @@ def systematic_templates(spec):
         out.append(("sort_order", {"axis": ax, "order": {"kind": "table", "i": 1, "axis": ax}}))
         out.append(("subsample", {"axis": ax, "n": 2, "seed": 1}))
         out.append(("subsample", {"axis": ax, "n": 1, "by_id": True, "seed": 2}))
+        out.append(("subsample", {"axis": ax, "n": 3, "with_replacement": True, "seed": 4}))
+        out.append(("generate_subsamples", {"axis": ax, "n": 4, "draws": 2}))
+        out.append(("generate_subsamples", {"axis": ax, "n": 1, "by_id": True, "draws": 2}))
+        out.append(("collapse", {"axis": ax, "one_to_many": True, "mode": "divide", "strict": False}))
+        out.append(("partition", {"axis": ax, "fn": "none_some", "ignore_none": True}))
         out.append(("partition", {"axis": ax, "fn": "grp", "remove_empty": False}))
         out.append(("partition", {"axis": ax, "fn": "len", "remove_empty": True}))
         out.append(("collapse", {"axis": ax, "fn": "grp", "norm": False}))
@@ -801,6 +1030,9 @@ def systematic_templates(spec):
         out.append(("pa", {"inplace": ip}))
         out.append(("remove_empty", {"axis": "whole", "inplace": ip}))
     out.append(("copy", {}))
+    out.append(("ctor_from_table", {"src": 0}))
+    out.append(("merge", {"others": [1, 2], "ignore_md": False}))
+    out.append(("merge", {"others": [1, 3], "ignore_md": True}))
     out.append(("transpose", {}))
     out.append(("head", {"n": 2, "m": 2}))
     for s in ("union", "intersection"):
@@ -841,6 +1073,9 @@ def check(ctx, W, case, tags=()):
         if c["name"] in ("ext_ids", "construct"):
             ctx.count("ctor:" + c["args"].get("route", "ext_ids"))
             continue
+        if c["name"] == "read":
+            ctx.count("read:" + c["args"]["accessor"])
+            continue
         n_api += 1
         before = calls[k - 1]["after"] if k else []
         rv = before[c["recv"]] if c["recv"] < len(before) else None
@@ -873,6 +1108,12 @@ def check(ctx, W, case, tags=()):
         ctx.count("history-ended:" + W.out_of_domain)
     for pr in W.problems:
         ctx.fail(case, "harness.sanity", list(tags) + [pr])
+    for k, acc, bad in W.read_failures:
+        ctx.fail(case, "read.answers-current-content", list(tags) + ["accessor=" + acc],
+                 detail={"call": k, "what": bad, "recipe": W.recipe})
+    for k, name, raised in W.incoherent:
+        ctx.fail(case, "inplace.raised-leaves-receiver-incoherent", list(tags) + ["op=" + name, "raised=" + raised],
+                 detail={"call": k, "recipe": W.recipe})
     req = {"calls": [{k: v for k, v in c.items() if k != "error"} for c in calls]}
     r = ctx.driver.ask(req)
     if not r["model_holds"]:
@@ -922,6 +1163,58 @@ def fixed_histories():
         W.call("add_metadata", 2, {"axis": "sample", "md": {"s1": {}}})
         api_call(W, "norm", 2, {"axis": "sample", "inplace": True}, rng)
     out.append(("all-empty-metadata-tuple", empty_md_tuple))
+
+    def wanted_layout_already_there(W, rng):
+        # seeded changes C12-kernel-on-self-when-already-csc / C12-generate-subsamples-filters-inplace /
+        # C07-transpose-shares-buffer-when-csc: the input is ALREADY in the layout the operation wants, left there
+        # by a read accessor or by an earlier in-place call; the operation must still work on its own copy
+        spec = {"obs": ["o1", "o2", "o3"], "samp": ["s1", "s2", "s3"],
+                "rows": [[5.0, 1.0, 0.0], [4.0, 0.0, 2.0], [3.0, 1.0, 6.0]],
+                "omd": [{"grp": "a"}, {"grp": "b"}, {"grp": "a"}], "smd": None, "type": "OTU table"}
+        W.construct(spec, "dense", None, None)
+        for prep in ("data_samp", "iter_obs", "iter_samp"):
+            W.read(0, prep, rng)
+            ax = "sample" if prep.endswith("samp") else "observation"
+            api_call(W, "subsample", 0, {"axis": ax, "n": 4, "seed": 1}, rng)
+            api_call(W, "generate_subsamples", 0, {"axis": ax, "n": 4, "draws": 2}, rng, do_poke=False)
+            for acc in ("nnz", "data_obs", "sum"):
+                W.read(0, acc, rng)
+            W.read(0, prep, rng)
+            api_call(W, "transpose", 0, {}, rng) if prep == "data_samp" else None
+            api_call(W, "pa", 0, {"inplace": False}, rng) if prep == "iter_obs" else None
+        W.call("transform", 0, {"axis": "sample", "fn": "ident", "inplace": True})
+        api_call(W, "generate_subsamples", 0, {"axis": "sample", "n": 7, "draws": 1}, rng)
+    out.append(("wanted-layout-already-there", wanted_layout_already_there))
+
+    def read_change_read(W, rng):
+        # identity-keyed caches (seeded C16-data-memo-cache, C19-nnz-cached-per-matrix-object): ask, change in
+        # place keeping the same matrix / ID array / dict objects, ask again
+        spec = {"obs": ["o1", "o2"], "samp": ["s1", "s2", "s3"], "rows": [[1.0, 2.0, 0.0], [0.0, 4.0, 6.0]],
+                "omd": [{"grp": "a", "k": "1"}, {"grp": "b", "k": "2"}], "smd": [{"grp": "a"}, {"grp": "b"}, {"grp": "a"}],
+                "type": None}
+        W.construct(spec, "csr", None, None)
+        changes = [("transform", {"fn": "thr", "inplace": True}), ("transform", {"fn": "x2", "inplace": True}),
+                   ("norm", {"inplace": True}), ("pa", {"inplace": True}),
+                   ("update_ids", {"axis": "sample", "map": {"s1": "t1"}, "strict": False, "inplace": True}),
+                   ("del_metadata", {"axis": "observation", "keys": ["k"]}),
+                   ("add_metadata", {"axis": "sample", "md": {"s2": {"grp": "z"}}})]
+        for n, acc in enumerate(READS + READS):
+            t = len(W.live)
+            W.construct(spec, rng.choice(["csr", "csc", "dense"]), None, None)
+            W.read(t, acc, rng)
+            # change in place along the axis of the layout the table is in NOW: same matrix object afterwards
+            lay = "sample" if W.live[t].matrix_data.getformat() == "csc" else "observation"
+            name, p = changes[(n * 3 + len(acc)) % len(changes)] if n >= len(READS) else changes[n % 2]
+            p = dict(p)
+            if name in ("transform", "norm"):
+                p["axis"] = lay
+            if name == "pa" and lay != "sample":
+                name, p = "transform", {"axis": lay, "fn": "thr", "inplace": True}
+            api_call(W, name, t, p, rng)
+            W.read(t, acc, rng)          # the same question first ...
+            for other_acc in rng.sample(READS, 3):   # ... then others, in random order
+                W.read(t, other_acc, rng)
+    out.append(("read-change-read", read_change_read))
 
     def shared_arrays(W, rng):
         # two tables built from the same caller-held ID arrays; views handed on by transpose / sort_order /
@@ -990,26 +1283,57 @@ def run_recipe(kind, seed, params):
         W = World()
         dict(fixed_histories())[params["name"]](W, rng)
         return W
+    if kind == "refused":
+        return refused_history(rng, params["case"])
     if kind == "systematic":
         W, spec = systematic_world(rng, params["route"], params["share"])
         name, p = systematic_templates(spec)[params["template"]]
         recv = prep_layout(W, 0, params["prep"], rng)
-        if name == "norm" or name == "subsample":
-            pass
-        do_named(W, name, recv, copy.deepcopy(p), rng)
+        p = copy.deepcopy(p)
+        if name == "ctor_from_table":
+            p["src"] = recv
+        do_named(W, name, recv, p, rng)
+        for i in range(len(W.live)):
+            W.read(i, rng.choice(READS), rng)
         return W
+    if kind == "wide":
+        return wide_history(rng, params["axis"])
     if kind == "random":
         return random_history(rng, params.get("quick", True), holes=params.get("holes", False))
     raise ValueError(kind)
 
 
+def run_under_profile(kind, seed, params):
+    """run a recipe, possibly under a non-default error profile (params['profile'] = reaction to 'empty')"""
+    prof = params.get("profile")
+    if not prof:
+        return run_recipe(kind, seed, params)
+    import warnings
+    import biom.err as E
+    import io
+    old_cb = E.geterrcall("empty")
+    old_out = E.stdout
+    with warnings.catch_warnings():
+        warnings.simplefilter("ignore")
+        E.seterrcall("empty", lambda item: None)
+        E.stdout = io.StringIO()
+        try:
+            with E.errstate(empty=prof):
+                return run_recipe(kind, seed, params)
+        finally:
+            E.seterrcall("empty", old_cb)
+            E.stdout = old_out
+
+
 def run_case(ctx, kind, seed, params, impl_name, mods, tags=()):
     case = {"kind": kind, "seed": seed, "params": params, "kernels": impl_name}
     if mods is None:
-        W = run_recipe(kind, seed, params)
+        W = run_under_profile(kind, seed, params)
     else:
         with kernels.use_kernels(mods):
-            W = run_recipe(kind, seed, params)
+            W = run_under_profile(kind, seed, params)
+    if params.get("profile"):
+        ctx.count("history-under-profile:empty=" + params["profile"])
     return check(ctx, W, case, list(tags) + [kind, "kernels=" + impl_name])
 
 
@@ -1053,12 +1377,25 @@ def run(ctx):
                 impl = rendered if (rendered and k % 4 == 0) else compiled
                 run_case(ctx, "systematic", ctx.rng.getrandbits(40),
                          {"route": route, "share": k % 2 == 0, "prep": prep, "template": ti}, impl[0], impl[1])
-    # random histories
+    # refused operations, under the default and under other error profiles
+    for j, which in enumerate(REFUSALS):
+        for prof in ([None, "raise"] if quick else [None, "raise", "warn", "call", "print"]):
+            params = {"case": which}
+            if prof:
+                params["profile"] = prof
+            run_case(ctx, "refused", ctx.rng.getrandbits(40), params, compiled[0], compiled[1])
+    # a few large tables (size thresholds)
+    for j in range(4 if quick else 24):
+        run_case(ctx, "wide", ctx.rng.getrandbits(40), {"axis": AXES[j % 2]}, compiled[0], compiled[1])
+    # random histories; a share of them under a non-default error profile
     i = 0
     while ctx.time_left(budget) > 0:
         i += 1
         impl = rendered if (rendered and i % 4 == 0) else compiled
-        run_case(ctx, "random", ctx.rng.getrandbits(48), {"quick": quick, "holes": i % 10 == 0}, impl[0], impl[1])
+        params = {"quick": quick, "holes": i % 10 == 0}
+        if i % 7 == 3:
+            params["profile"] = ["raise", "warn", "call", "print"][(i // 7) % 4]
+        run_case(ctx, "random", ctx.rng.getrandbits(48), params, impl[0], impl[1])
 
 
 def replay(ctx, rec):
